@@ -8,6 +8,7 @@ package main
 import (
 	"bytes"
 	"crypto/sha256"
+	"encoding/hex"
 	"encoding/json"
 	"flag"
 	"fmt"
@@ -18,6 +19,7 @@ import (
 	"strconv"
 	"strings"
 	"sync"
+	"syscall"
 	"time"
 )
 
@@ -97,9 +99,20 @@ func goEnv() []string {
 
 // buildEngine writes the overlay and builds the test binary. Returns the binary path.
 func buildEngine(name string, e EngineCfg, mutantDir string) string {
+	// a tree other than /repo (development experiments, seeded changes in scratch worktrees) gets
+	// its own build directory and binary, so that concurrent invocations never run each other's code
+	if repoDir != "/repo" {
+		h := sha256.Sum256([]byte(repoDir))
+		name = name + "@" + hex.EncodeToString(h[:4])
+	}
 	bdir := filepath.Join(verifDir, "build", name)
 	os.MkdirAll(bdir, 0o755)
 	os.MkdirAll(filepath.Join(verifDir, "build", "bin"), 0o755)
+	// one builder at a time per engine: the generated sources under bdir are shared
+	if lf, err := os.OpenFile(filepath.Join(bdir, ".lock"), os.O_CREATE|os.O_RDWR, 0o644); err == nil {
+		syscall.Flock(int(lf.Fd()), syscall.LOCK_EX)
+		defer func() { syscall.Flock(int(lf.Fd()), syscall.LOCK_UN); lf.Close() }()
+	}
 	replace := map[string]string{}
 	add := func(src, dstRel string) {
 		replace[filepath.Join(repoDir, dstRel)] = src
@@ -224,7 +237,11 @@ func buildEngine(name string, e EngineCfg, mutantDir string) string {
 	ovPath := filepath.Join(bdir, "overlay.json")
 	os.WriteFile(ovPath, ovb, 0o644)
 	bin := filepath.Join(verifDir, "build", "bin", name+".test")
-	args := []string{"test", "-c", "-vet=off", "-overlay", ovPath, "-o", bin}
+	// link to a private path and rename: processes still executing the previous binary keep their
+	// inode, a new exec always sees a complete file
+	tmpBin := fmt.Sprintf("%s.tmp%d", bin, os.Getpid())
+	defer os.Remove(tmpBin)
+	args := []string{"test", "-c", "-vet=off", "-overlay", ovPath, "-o", tmpBin}
 	if e.Tags != "" {
 		args = append(args, "-tags", e.Tags)
 	}
@@ -236,6 +253,9 @@ func buildEngine(name string, e EngineCfg, mutantDir string) string {
 	out, err := cmd.CombinedOutput()
 	if err != nil {
 		die2("build of engine %s failed (the tree or the harness does not compile):\n%s", name, out)
+	}
+	if err := os.Rename(tmpBin, bin); err != nil {
+		die2("install engine binary: %v", err)
 	}
 	fmt.Fprintf(os.Stderr, "vdriver: built %s in %.1fs\n", name, time.Since(t0).Seconds())
 	return bin
